@@ -54,16 +54,6 @@ static void geomTok(const GEOSGeometry* g, std::ostringstream& o) {
     }
 }
 static std::string tok(const GEOSGeometry* g) { std::ostringstream o; geomTok(g, o); return o.str(); }
-// a collection with an EMPTY element somewhere below it (RelateNG crashes on some of these: reported to C01/C02/C12)
-static bool hasEmptyPart(const GEOSGeometry* g, bool top = true) {
-    int t = GEOSGeomTypeId_r(h, g);
-    if (t == GEOS_MULTIPOINT || t == GEOS_MULTILINESTRING || t == GEOS_MULTIPOLYGON || t == GEOS_GEOMETRYCOLLECTION) {
-        int n = GEOSGetNumGeometries_r(h, g);
-        for (int i = 0; i < n; i++) if (hasEmptyPart(GEOSGetGeometryN_r(h, g, i), false)) return true;
-        return false;
-    }
-    return !top && GEOSisEmpty_r(h, g);
-}
 static GEOSGeometry* fix(const GEOSGeometry* g, char method, int keep) {
     if (method == 'D') return GEOSMakeValid_r(h, g);
     GEOSMakeValidParams* p = GEOSMakeValidParams_create_r(h);
@@ -92,8 +82,8 @@ int main() {
         int iv = (int)GEOSisValid_r(h, g);
         o << tok(r) << " | V=" << (int)GEOSisValid_r(h, r) << " IV=" << iv;
         lastErr.clear();
-        // GEOSEquals_r only where the property needs it (valid input) and where RelateNG is known not to crash
-        int eq = (iv == 1 && !hasEmptyPart(g) && !hasEmptyPart(r)) ? (int)GEOSEquals_r(h, g, r) : 3;
+        // GEOSEquals_r only where the property needs it (valid input)
+        int eq = iv == 1 ? (int)GEOSEquals_r(h, g, r) : 3;
         o << " EQ=" << eq << " DI=" << GEOSGeom_getDimensions_r(h, g) << " DO=" << GEOSGeom_getDimensions_r(h, r);
         GEOSGeometry* r2 = fix(r, m.empty() ? 'D' : m[0], keep);
         if (!r2) o << " IDEM=-1 IDEMV=-1 | NULL";
